@@ -825,3 +825,137 @@ Proof.
     split; [apply ssorted_snoc; [exact Pss|eapply Forall_impl; [|exact Pfo]; simpl; intros; lia]|].
     split; [apply last_app_single|]. split; [rewrite app_length, !map_length; simpl; lia|exact Pnr].
 Qed.
+(* ====================================================================================
+   Part D.  The preparation of the event list (lines 714-752).
+   ==================================================================================== *)
+Section TW.
+Context {A : Type}.
+Fixpoint tw (f : A -> bool) (l : list A) : list A :=
+  match l with [] => [] | x :: t => if f x then x :: tw f t else [] end.
+Fixpoint dw (f : A -> bool) (l : list A) : list A :=
+  match l with [] => [] | x :: t => if f x then dw f t else x :: t end.
+Lemma tw_dw f l : l = tw f l ++ dw f l.
+Proof. induction l as [|x l IH]; [reflexivity|]. simpl. destruct (f x); [simpl; f_equal; exact IH|reflexivity]. Qed.
+Lemma tw_Forall f l : Forall (fun x => f x = true) (tw f l).
+Proof. induction l as [|x l IH]; [constructor|]. simpl. destruct (f x) eqn:E; [constructor; assumption|constructor]. Qed.
+Lemma dw_head f l : match dw f l with [] => True | x :: _ => f x = false end.
+Proof. induction l as [|x l IH]; [exact Logic.I|]. simpl. destruct (f x) eqn:E; [exact IH|exact E]. Qed.
+Lemma firstn_tw {B} (g : A -> B) f l : firstn (length (tw f l)) (map g l) = map g (tw f l).
+Proof. induction l as [|x l IH]; [reflexivity|]. simpl. destruct (f x); [simpl; f_equal; exact IH|reflexivity]. Qed.
+Lemma skipn_tw {B} (g : A -> B) f l : skipn (length (tw f l)) (map g l) = map g (dw f l).
+Proof. induction l as [|x l IH]; [reflexivity|]. simpl. destruct (f x); [simpl; exact IH|reflexivity]. Qed.
+End TW.
+
+Lemma ss_right_tw (dv : list (Z * Z)) v : ss_right (map fst dv) v = length (tw (fun p => fst p <=? v) dv).
+Proof. induction dv as [|x l IH]; [reflexivity|]. simpl. destruct (fst x <=? v); [simpl; f_equal; exact IH|reflexivity]. Qed.
+Lemma ss_left_tw (dv : list (Z * Z)) v : ss_left (map fst dv) v = length (tw (fun p => fst p <? v) dv).
+Proof. induction dv as [|x l IH]; [reflexivity|]. simpl. destruct (fst x <? v); [simpl; f_equal; exact IH|reflexivity]. Qed.
+
+Lemma map_fst_combine {A B} (a : list A) (b : list B) : length a = length b -> map fst (combine a b) = a.
+Proof. revert b. induction a as [|x a IH]; intros [|y b] H; simpl in *; try discriminate; [reflexivity|]. f_equal. apply IH. lia. Qed.
+Lemma map_snd_combine {A B} (a : list A) (b : list B) : length a = length b -> map snd (combine a b) = b.
+Proof. revert b. induction a as [|x a IH]; intros [|y b] H; simpl in *; try discriminate; [reflexivity|]. f_equal. apply IH. lia. Qed.
+
+Lemma upd_app {A} (a : list A) x b v : upd (a ++ x :: b) (length a) v = a ++ v :: b.
+Proof. induction a as [|y a IH]; [reflexivity|]. simpl. f_equal. exact IH. Qed.
+Lemma ss_left_app a b v : Forall (fun x => x < v) a -> ss_left (a ++ b) v = (length a + ss_left b v)%nat.
+Proof.
+  induction 1 as [|x a Hx _ IH]; [reflexivity|]. simpl. destruct (x <? v) eqn:E; [|lia]. rewrite IH. reflexivity.
+Qed.
+Lemma slice_app {A} (a c : list A) n : slice (length a) (length a + n) (a ++ c) = firstn n c.
+Proof.
+  unfold slice. rewrite skipn_app, skipn_all, Nat.sub_diag. simpl. f_equal. lia.
+Qed.
+
+Definition kept (dv : list (Z * Z)) (N : Z) : list (Z * Z) :=
+  let pri := tw (fun p => fst p <=? -1) dv in
+  let mid := tw (fun p => fst p <? N) (dw (fun p => fst p <=? -1) dv) in
+  match last_opt pri with Some p => (0, snd p) :: mid | None => mid end.
+
+Lemma prep_slices (ds tvals : list Z) N : 0 < N -> length ds = length tvals ->
+  let dv := combine ds tvals in
+  let fp0 := ss_right ds (-1) in
+  let fe := if (0 <? fp0)%nat then ((fp0 - 1)%nat, upd ds (fp0 - 1) 0) else (fp0, ds) in
+  let opl := ss_left (snd fe) N in
+  slice (fst fe) opl (snd fe) = map fst (kept dv N) /\ slice (fst fe) opl tvals = map snd (kept dv N).
+Proof.
+  intros HN Hlen dv fp0 fe opl.
+  assert (Hds : ds = map fst dv) by (symmetry; apply map_fst_combine; exact Hlen).
+  assert (Htv : tvals = map snd dv) by (symmetry; apply map_snd_combine; exact Hlen).
+  clearbody dv. subst ds tvals. clear Hlen.
+  set (f1 := fun p : Z * Z => fst p <=? -1) in *. set (f2 := fun p : Z * Z => fst p <? N) in *.
+  assert (Hfp : fp0 = length (tw f1 dv)) by (unfold fp0; apply ss_right_tw).
+  unfold kept. fold f1 f2.
+  destruct (tw f1 dv) as [|p0 pri0] eqn:Epri.
+  - (* no prior event *)
+    simpl in Hfp. subst opl fe. cbv zeta. rewrite Hfp. simpl.
+    assert (Hdw : dw f1 dv = dv).
+    { pose proof (tw_dw f1 dv) as H. rewrite Epri in H. simpl in H. symmetry. exact H. }
+    rewrite Hdw. unfold slice. simpl. rewrite Nat.sub_0_r.
+    rewrite ss_left_tw. fold f2. rewrite !firstn_tw. split; reflexivity.
+  - (* some prior event: the last one moves to dump 0 *)
+    assert (Hne : p0 :: pri0 <> []) by discriminate.
+    destruct (exists_last Hne) as [pa [pl Epl]].
+    assert (Hlo : last_opt (p0 :: pri0) = Some pl) by (rewrite Epl; apply last_opt_snoc).
+    rewrite Hlo.
+    assert (Hdv : dv = pa ++ pl :: dw f1 dv).
+    { pose proof (tw_dw f1 dv) as H. rewrite Epri, Epl in H. rewrite <- app_assoc in H. exact H. }
+    assert (Hfp' : fp0 = S (length pa)).
+    { rewrite Hfp, Epl, app_length. simpl. lia. }
+    subst opl fe. cbv zeta. replace (0 <? fp0)%nat with true by (symmetry; apply Nat.ltb_lt; lia).
+    simpl fst. simpl snd. replace (fp0 - 1)%nat with (length pa) by lia.
+    set (rest := dw f1 dv) in *.
+    assert (Hds' : map fst dv = map fst pa ++ fst pl :: map fst rest).
+    { rewrite Hdv at 1. rewrite map_app. reflexivity. }
+    assert (Htv' : map snd dv = map snd pa ++ snd pl :: map snd rest).
+    { rewrite Hdv at 1. rewrite map_app. reflexivity. }
+    assert (Hupd : upd (map fst dv) (length pa) 0 = map fst pa ++ 0 :: map fst rest).
+    { rewrite Hds'. rewrite <- (map_length fst pa). apply upd_app. }
+    rewrite Hupd.
+    assert (Hpri : Forall (fun x => x < N) (map fst pa)).
+    { apply Forall_map. pose proof (tw_Forall f1 dv) as H. rewrite Epri, Epl in H.
+      apply Forall_app in H. destruct H as [H _]. eapply Forall_impl; [|exact H]. unfold f1. simpl. intros. lia. }
+    assert (Hopl : ss_left (map fst pa ++ 0 :: map fst rest) N = (length pa + S (length (tw f2 rest)))%nat).
+    { rewrite (ss_left_app (map fst pa) (0 :: map fst rest) N Hpri), map_length.
+      simpl ss_left. replace (0 <? N) with true by lia. rewrite ss_left_tw. reflexivity. }
+    rewrite Hopl. split.
+    + rewrite <- (map_length fst pa) at 1 2. rewrite slice_app. simpl firstn. rewrite firstn_tw. reflexivity.
+    + rewrite Htv'. rewrite <- (map_length snd pa) at 1 2. rewrite slice_app. simpl firstn. rewrite firstn_tw. reflexivity.
+Qed.
+Definition Dmap (ends' : list Z) (t : Z) : Z := Z.of_nat (ss_left ends' t) - 1.
+
+(* the event list handed to the generator, as (dump, value) pairs *)
+Definition with_init (K : list (Z * Z)) (init : option Z) : list (Z * Z) :=
+  match init with
+  | Some i => match K with
+              | [] => [(0, i)]
+              | (d, _) :: _ => if d =? 0 then K else (0, i) :: K
+              end
+  | None => K
+  end.
+
+Lemma map_slice {A B} (f : A -> B) a b l : map f (slice a b l) = slice a b (map f l).
+Proof. unfold slice. rewrite skipn_map, firstn_map. reflexivity. Qed.
+
+Lemma prep_kept ts vals e0 er P tr init : length ts = length vals ->
+  let ends := e0 :: er in
+  let N := Z.of_nat (length ends) in
+  let dv := combine (map (Dmap ((e0 - P) :: ends)) ts) (map (app_tr tr) vals) in
+  s2c_prep ts vals ends P tr init =
+    match with_init (kept dv N) init with
+    | [] => None
+    | (_, v) :: t => Some (v :: map snd t, 0 :: map fst t)
+    end.
+Proof.
+  intros Hlen. cbv zeta. unfold s2c_prep. lazy iota beta.
+  set (ends := e0 :: er). set (N := Z.of_nat (length ends)).
+  change (map (fun t => Z.of_nat (ss_left ((e0 - P) :: ends) t) - 1) ts) with (map (Dmap ((e0 - P) :: ends)) ts).
+  set (dv := combine (map (Dmap ((e0 - P) :: ends)) ts) (map (app_tr tr) vals)).
+  set (ds := map (Dmap ((e0 - P) :: ends)) ts) in *.
+  assert (HN : 0 < N) by (unfold N, ends; simpl length; lia).
+  assert (Hl2 : length ds = length (map (app_tr tr) vals)) by (unfold ds; rewrite !map_length; exact Hlen).
+  pose proof (prep_slices ds (map (app_tr tr) vals) N HN Hl2) as HS. cbv zeta in HS. fold dv in HS.
+  destruct (0 <? ss_right ds (-1))%nat; simpl fst in HS; simpl snd in HS; destruct HS as [HS1 HS2];
+  rewrite map_slice, HS1, HS2; unfold with_init;
+  (destruct (kept dv N) as [|[d v] K']; simpl; destruct init; try reflexivity; destruct (d =? 0); reflexivity).
+Qed.
